@@ -40,7 +40,7 @@ StlMutations ==
 \* Shapes: optional parts of a cue list (0 = absent / nil)
 Shapes ==
   [meta : 0..1, styles : 0..3, regions : 0..3, iinl : 0..1, istyle : 0..2, iregion : 0..2, lines : 0..2, rinl : 0..1, rstyle : 0..1,
-   text : 0..6, stlpos : 0..1, tsmap : 0..1]
+   text : 0..8, stlpos : 0..1, tsmap : 0..1]
 
 \* the normative statement, evaluated on every recorded call
 \* "demuxer-crash": the third-party transport-stream demultiplexer itself panicked; the statement excludes
